@@ -471,6 +471,10 @@ func TestRaceChangeSetSnapshots(t *testing.T) {
 	rapid.Check(t, func(rt *rapid.T) {
 		nkeys := gen.Uniform(rt, 60, 400, "nkeys")
 		nreaders := gen.Uniform(rt, 2, 6, "nreaders")
+		if gen.Chance(rt, 60, "manyreaders") {
+			// more readers than processors: a reader is then often descheduled between two calls
+			nreaders = gen.Uniform(rt, 16, 48, "nreadersmany")
+		}
 		version := int64(gen.Uniform(rt, 0, 2, "version"))
 		keyOf := func(i int) string { return fmt.Sprintf("%02x%02x%02x", (i*7)%256, (i*13)%256, i%256) }
 		valOf := func(i, round int) []byte { return []byte{byte(i), byte(i >> 8), byte(round), 0x3a} }
@@ -480,8 +484,8 @@ func TestRaceChangeSetSnapshots(t *testing.T) {
 		for i := 0; i < nkeys; i++ {
 			script = append(script, wop{i, 0})
 		}
-		for j := gen.Uniform(rt, 10, 80, "nupdates"); j > 0; j-- {
-			script = append(script, wop{gen.Uniform(rt, 0, nkeys-1, "upd"), 1 + j})
+		for j := gen.Uniform(rt, 100, 900, "nupdates"); j > 0; j-- {
+			script = append(script, wop{gen.Uniform(rt, 0, nkeys-1, "upd"), 1 + j%250})
 		}
 		// sequential reference run
 		type snap struct{ changes, deletes int }
@@ -510,6 +514,18 @@ func TestRaceChangeSetSnapshots(t *testing.T) {
 		done := make(chan struct{})
 		var wg sync.WaitGroup
 		var snapshots atomic.Int64
+		// The readers pause where the change collector's read methods begin (verif-tag hook): with the trie's lock held
+		// around them, as it must be, the pause only delays the writer; a change set assembled from separately locked
+		// reads is torn by it.
+		var yields atomic.Int64
+		installYield(func(string) {
+			n := yields.Add(1)
+			runtime.Gosched()
+			if n%8 == 0 {
+				time.Sleep(20 * time.Microsecond)
+			}
+		})
+		defer installYield(nil)
 		wg.Add(1)
 		go func() {
 			defer wg.Done()
@@ -555,6 +571,11 @@ func TestRaceChangeSetSnapshots(t *testing.T) {
 					if len(changes) != want.changes || len(deletes) != want.deletes {
 						fail("torn change set: root %x belongs to %d changes / %d deletes, GetChanges returned %d / %d", root, want.changes, want.deletes, len(changes), len(deletes))
 						return
+					}
+					// three of four snapshots are only compared with the reference table (cheap, so that many
+					// snapshots are taken while the writer runs); every fourth is read in full
+					if n%4 != 1 {
+						continue
 					}
 					// what was returned is the caller's snapshot: read it while the writer goes on
 					seenRoot := len(root) == 0
